@@ -383,8 +383,11 @@ def array_rules(run, F, E):
         if cont == 'StaticArrayT':
             continue   # cannot be instantiated (IteratorT befriends DynamicArrayT only); nothing to decide
         fields = {'_cursor': Sym('cur'), '_container': ObjRef({'_count': Sym('count')}, ['_items'])}
-        sm = summary(fn, [Opaque('other')], fields, ())
+        other = ObjRef({'_cursor': Sym('other_cur'), '_container': ObjRef({'_count': Sym('other_count')}, ['_items'])}, []) if fn.m == 'operator!=' else Opaque('other')
+        sm = summary(fn, [other], fields, ())
         if fn.m == 'operator!=':
+            # the end of an iteration is the container's *live* count (elements appended while iterating are visited), not the position
+            # an end() iterator captured before the loop started
             r = sm.ret
             ok = isinstance(r, Opaque) and isinstance(r.tag, tuple) and r.tag[0] == 'cmp' and \
                 ((r.tag[1] in ('!=', '<') and r.tag[2:] == (Sym('cur'), Sym('count'))) or (r.tag[1] in ('!=', '>') and r.tag[2:] == (Sym('count'), Sym('cur'))))
